@@ -8,9 +8,18 @@
 // results, bytes written through output parameters, expectedCallsLeft, data-store read-back.
 //
 // Scoping (DESIGN.md section 5): check counters are not compared; C calls for two scopes are never
-// interleaved inside one call chain (every statement is one complete chain); return-value getters are
-// attached to the actual call they read; removeAllComparatorsAndCopiers is only issued on the root
-// scope when no expectation holds a C comparator node.
+// interleaved inside one call chain, with one exception (below); return-value getters are attached to
+// the actual call they read; removeAllComparatorsAndCopiers is only issued on the root scope when no
+// expectation holds a C comparator node.
+//
+// Kept handles ("interludes"): a mocked function may keep the MockActualCall_c* / MockActualCall& of
+// its call and consult the data store (getData / set*Data) or expectedCallsLeft of ANY scope before it
+// goes on with the chain (further parameters, return-value getters). Such an operation creates no
+// actual call and destroys none, so the handle stays valid in both interfaces. After an interlude
+// on another scope the handle's returnValue() and typed getters are judged; hasReturnValue() and the
+// ...OrDefault getters of the handle are NOT (in the C facade they are documented-by-implementation
+// to ask the currently selected mock support, and do so on the unchanged tree): they are not issued
+// in that state (the enumerated table observes hasReturnValue there and only counts what it sees).
 #include "verif.h"
 #include <cmath>
 #include <cfloat>
@@ -171,10 +180,15 @@ struct Param {
     int mi = 0;            // expected P_OUT_RAW: index into Scenario::mems
     int ot = 0, oi = 0;    // typed output: type index (+ object index on the expected side; -1-b = the object lives in receiving buffer b)
     int buf = 0;           // actual output: which g_out buffer receives
+    int il = -1;           // actual side: index into Scenario::ils of a support-level operation issued (handle kept) before this chain link
 };
 enum { G_RETVAL, G_HAS, G_TYPED, G_ORDEFAULT };
 enum { L_ACTUAL, L_SUPPORT };
-struct Getter { int level = L_ACTUAL; int kind = G_RETVAL; int t = V_INT; Val def; };
+struct Getter {
+    int level = L_ACTUAL; int kind = G_RETVAL; int t = V_INT; Val def;
+    int il = -1;           // index into Scenario::ils of a support-level operation issued (handle kept) before this getter
+    bool foreign = false;  // derived (finish_chain): actual-level getter issued while ANOTHER scope than the call's is the selected one
+};
 
 struct Stmt {
     int k = S_EXPECT;
@@ -195,6 +209,7 @@ struct Scenario {
     std::vector<std::string> strs;
     std::vector<std::string> mems;
     std::vector<Stmt> stmts;
+    std::vector<Stmt> ils;                 // interludes: getData / setData / expectedCallsLeft statements issued inside an actual-call chain
     bool ignoredPossible = false;
     std::string key_override;              // enumerated tables with their own key family (D19 table, adaptor table)
 };
@@ -215,7 +230,8 @@ static std::string val_str(const Scenario& sc, const Val& v) {
 }
 static std::string getter_label(const Getter& g) {
     std::string s = g.level == L_ACTUAL ? "actual." : "support.";
-    switch (g.kind) { case G_RETVAL: return s + "returnValue"; case G_HAS: return s + "hasReturnValue"; case G_TYPED: return s + "typed." + VT_NAME[g.t]; default: return s + "orDefault." + VT_NAME[g.t]; }
+    const char* sfx = g.foreign ? ":other-scope-selected" : "";
+    switch (g.kind) { case G_RETVAL: return s + "returnValue" + sfx; case G_HAS: return s + "hasReturnValue" + sfx; case G_TYPED: return s + "typed." + VT_NAME[g.t] + sfx; default: return s + "orDefault." + VT_NAME[g.t] + sfx; }
 }
 static std::string stmt_str(const Scenario& sc, const Stmt& st) {
     std::string s = std::string("mock(") + SCOPE[st.scope] + (st.scope == 0 && st.entry ? "/scope_c" : "") + ").";
@@ -235,11 +251,12 @@ static std::string stmt_str(const Scenario& sc, const Stmt& st) {
     case S_ACTUAL:
         s += "actualCall(" + st.fn + ")";
         for (const Param& p : st.ps) {
+            if (p.il >= 0) s += " <handle kept: " + stmt_str(sc, sc.ils[p.il]) + "> ";
             if (p.kind == P_IN) s += ".with(" + p.name + "=" + val_str(sc, p.v) + ")";
             else if (p.kind == P_OUT_RAW) s += ".out(" + p.name + ",buf" + std::to_string(p.buf) + ")";
             else s += ".outOfType(" + std::string(OT_NAME[p.ot]) + "," + p.name + ",buf" + std::to_string(p.buf) + ")";
         }
-        for (const Getter& g : st.getters) { s += " ; " + getter_label(g); if (g.kind == G_ORDEFAULT) s += "(" + val_str(sc, g.def) + ")"; }
+        for (const Getter& g : st.getters) { if (g.il >= 0) s += " ; <handle kept: " + stmt_str(sc, sc.ils[g.il]) + ">"; s += " ; " + getter_label(g); if (g.kind == G_ORDEFAULT) s += "(" + val_str(sc, g.def) + ")"; }
         break;
     case S_SETDATA: s += std::string(st.dconst ? "setDataConst(" : "setData(") + st.fn + "," + val_str(sc, st.dval) + ")"; break;
     case S_GETDATA: s += "getData(" + st.fn + ")"; break;
@@ -262,6 +279,7 @@ struct Exec {
     size_t failures = 0;
     std::string text;
     bool bodyDone = false, tearDone = false;
+    std::vector<std::string> unjudged_has;   // hasReturnValue() of a kept handle while another scope is selected: observed, not compared
 };
 static const Scenario* g_sc; static Exec* g_x;
 static std::vector<int> g_executed_kinds;     // statement kinds started by the C execution (evidence)
@@ -445,6 +463,7 @@ static std::string cpp_getter_support(MockSupport& m, const Scenario& sc, const 
     default: return fptr_name(m.returnFunctionPointerValueOrDefault(fptr_of(d.pi)));
     }
 }
+static uint64_t g_il_tally[S_KINDS][2][2];              // C execution: interludes by [statement kind][other scope than the call's][before a getter]
 static void cpp_stmt(const Scenario& sc, const Stmt& st, int i) {
     MockSupport& m = mock(SCOPE[st.scope]);
     switch (st.k) {
@@ -458,11 +477,12 @@ static void cpp_stmt(const Scenario& sc, const Stmt& st, int i) {
     }
     case S_ACTUAL: {
         MockActualCall* a = &m.actualCall(st.fn.c_str());
-        for (const Param& p : st.ps) a = &cpp_act_param(*a, sc, p);
+        for (const Param& p : st.ps) { if (p.il >= 0) cpp_stmt(sc, sc.ils[p.il], i); a = &cpp_act_param(*a, sc, p); }
         for (const Getter& g : st.getters) {
+            if (g.il >= 0) cpp_stmt(sc, sc.ils[g.il], i);
             std::string lbl = getter_label(g);
             std::string v = g.level == L_ACTUAL ? cpp_getter_actual(*a, sc, g) : cpp_getter_support(mock(SCOPE[st.scope]), sc, g);
-            logev(i, "get", lbl, v);
+            if (g.foreign && g.kind == G_HAS) g_x->unjudged_has.push_back(v); else logev(i, "get", lbl, v);
         }
         log_outs_of(i, st);
         break;
@@ -677,11 +697,16 @@ static void c_stmt(const Scenario& sc, const Stmt& st, int i) {
     }
     case S_ACTUAL: {
         MockActualCall_c* A = SUP(actualCall)(st.fn.c_str());
-        for (const Param& p : st.ps) A = c_act_param(A, sc, p);
+        // interludes: the handle A is kept while a support-level operation (possibly of another scope) is issued through mock_c() / mock_scope_c()
+        for (const Param& p : st.ps) {
+            if (p.il >= 0) { const Stmt& il = sc.ils[p.il]; g_il_tally[il.k][il.scope != st.scope][0]++; c_stmt(sc, il, i); }
+            A = c_act_param(A, sc, p);
+        }
         for (const Getter& g : st.getters) {
+            if (g.il >= 0) { const Stmt& il = sc.ils[g.il]; g_il_tally[il.k][il.scope != st.scope][1]++; c_stmt(sc, il, i); }
             std::string lbl = getter_label(g);
             std::string v = g.level == L_ACTUAL ? c_getter_actual(A, sc, g) : c_getter_support(c_entry(st), sc, g);
-            logev(i, "get", lbl, v);
+            if (g.foreign && g.kind == G_HAS) g_x->unjudged_has.push_back(v); else logev(i, "get", lbl, v);
         }
         log_outs_of(i, st);
         break;
@@ -831,7 +856,9 @@ static bool compare_execs(vf::Ctx& c, const Scenario& sc, const Exec& cpp, const
             // the expectation that supplied the value: look it up for the key (first expectation of that name with a return value)
             if (!st.hasRet) for (const Stmt& e : sc.stmts) if (e.k == S_EXPECT && e.fn == st.fn && e.scope == st.scope) { rt = e.hasRet ? VT_NAME[e.ret.t] : "none"; break; }
             bool tagdiff = a.value.compare(0, 4, "tag=") == 0 && a.value.substr(0, a.value.find(' ')) != b.value.substr(0, b.value.find(' '));
-            key = std::string(tagdiff ? "returned-tag:" : "returned-value:") + a.label + ":ret=" + rt;
+            // read through a kept handle while another scope is selected: which call was read is the question, not how its value was converted
+            bool kept = a.label.find(":other-scope-selected") != std::string::npos;
+            key = std::string(tagdiff ? "returned-tag:" : "returned-value:") + a.label + (kept ? "" : ":ret=" + rt);
         } else if (a.kind == "out") {
             key = "output-bytes:" + sk;
             if (a.stmt < (int) sc.stmts.size()) for (const Param& p : sc.stmts[a.stmt].ps) if (p.kind != P_IN && "buf" + std::to_string(p.buf) == a.label) { key += p.kind == P_OUT_TYPED ? ":typed" : ":raw"; break; }
@@ -924,6 +951,18 @@ static void run_scenario(vf::Ctx& c, const Scenario& sc) {
         c.count(std::string("c_copy_fn_call:") + CP_NAME[m] + (same ? ":dst-is-src" : ":dst-differs"), g_cpy_tally[m][same]);
         g_cpy_tally[m][same] = 0;
     }
+    // kept handles: support-level operations issued inside an actual-call chain (C execution), and what was read through the handle afterwards
+    for (int k = 0; k < S_KINDS; k++) for (int other = 0; other < 2; other++) for (int pos = 0; pos < 2; pos++) if (g_il_tally[k][other][pos]) {
+        c.count(std::string("handle_kept_across:") + SK_NAME[k] + (other ? ":other-scope" : ":own-scope") + (pos ? ":before-getter" : ":before-parameter"), g_il_tally[k][other][pos]);
+        g_il_tally[k][other][pos] = 0;
+    }
+    if (!diverged) for (const Ev& e : cpp.ev) if (e.kind == "get" && e.label.find(":other-scope-selected") != std::string::npos) {
+        c.count("kept_handle_getters_judged_after_other_scope_selected");
+        if (e.label.compare(0, 18, "actual.returnValue") == 0) c.count(e.value == "tag=INTEGER val=0" ? "kept_handle_returnValue_judged:empty-value" : "kept_handle_returnValue_judged:call-with-return-value");
+        else c.count(e.value == "0" ? "kept_handle_typed_getter_judged:zero" : "kept_handle_typed_getter_judged:non-zero");
+    }
+    for (size_t j = 0; j < cpp.unjudged_has.size() && j < cc.unjudged_has.size(); j++)
+        c.count(cpp.unjudged_has[j] == cc.unjudged_has[j] ? "unjudged:kept_handle_hasReturnValue_after_other_scope_selected:c-agrees" : "unjudged:kept_handle_hasReturnValue_after_other_scope_selected:c-differs");
     c.count("execution_pairs");
     c.count(diverged ? "pairs_diverged" : cpp.failures ? "pairs_agree_failing" : "pairs_agree_passing");
     c.count("verdict_class:" + msgclass(cpp));
@@ -1053,6 +1092,33 @@ static Stmt expect_of(const Plan& pl, vf::Rng& r) {
     if (pl.ecount == -2) { s.ps.clear(); s.ignoreOtherParams = false; s.hasRet = false; }
     return s;
 }
+// Derives, link by link, which scope is the selected one when an actual-level getter is issued: an interlude selects its own scope, a
+// support-level getter re-selects the call's. In the "foreign" state only the getters that the C facade reads through the chained call
+// are judged (returnValue, the typed getters): ...OrDefault is replaced by the typed getter, hasReturnValue by returnValue - except in the
+// enumerated table, whose calls are all fulfilled (hasReturnValue() of an unfulfilled call fails the test in C++), where it is observed unjudged.
+static void finish_chain(Stmt& s, const Scenario& sc, bool keepUnjudgedHas = false) {
+    bool foreign = false;
+    for (const Param& p : s.ps) if (p.il >= 0) foreign = sc.ils[p.il].scope != s.scope;
+    for (Getter& g : s.getters) {
+        if (g.il >= 0) foreign = sc.ils[g.il].scope != s.scope;
+        if (g.level == L_SUPPORT) foreign = false;
+        g.foreign = foreign;
+        if (g.foreign && g.kind == G_ORDEFAULT) g.kind = G_TYPED;
+        if (g.foreign && g.kind == G_HAS && !keepUnjudgedHas) g.kind = G_RETVAL;
+    }
+}
+static int add_interlude(Scenario& sc, const Stmt& il) { sc.ils.push_back(il); return (int) sc.ils.size() - 1; }
+static int gen_interlude(vf::Rng& r, Scenario& sc, int ownScope) {
+    int k = (int) r.below(100);
+    int scope = r.chance(78) ? (ownScope + 1 + (int) r.below(2)) % 3 : (int) r.below(3);
+    Stmt s = mk(k < 55 ? S_GETDATA : k < 75 ? S_SETDATA : S_LEFT, scope, &r);
+    if (s.k != S_LEFT) s.fn = DNAMES[r.below(2)];
+    if (s.k == S_SETDATA) {
+        static const int DT[] = { V_BOOL, V_INT, V_UINT, V_DOUBLE, V_STR, V_PTR, V_CPTR, V_FPTR, V_OBJ };
+        s.dval = gen_val(r, sc, DT[r.below(9)]); s.dconst = r.chance(50);
+    }
+    return add_interlude(sc, s);
+}
 static Stmt actual_of(const Plan& pl, vf::Rng& r, Scenario& sc, bool mutate) {
     Stmt s = mk(S_ACTUAL, pl.scope, &r); s.fn = pl.fn;
     for (const Param& e : pl.ps) {
@@ -1085,6 +1151,15 @@ static Stmt actual_of(const Plan& pl, vf::Rng& r, Scenario& sc, bool mutate) {
     }
     int ng = (int) r.below(100); ng = ng < 25 ? 0 : ng < 72 ? 1 : ng < 94 ? 2 : 3;
     for (int i = 0; i < ng; i++) s.getters.push_back(gen_getter(r, sc, &pl));
+    if (r.chance(22)) {
+        // the mocked function keeps its handle and consults the data store / expectedCallsLeft (mostly of another scope) in mid-chain
+        if (s.getters.empty()) s.getters.push_back(gen_getter(r, sc, &pl));
+        for (Param& p : s.ps) if (r.chance(15)) p.il = gen_interlude(r, sc, s.scope);
+        bool any = false;
+        for (Getter& g : s.getters) if (r.chance(60)) { g.il = gen_interlude(r, sc, s.scope); any = true; }
+        if (!any) s.getters[0].il = gen_interlude(r, sc, s.scope);
+    }
+    finish_chain(s, sc);
     return s;
 }
 
@@ -1180,7 +1255,7 @@ static void sec_random_objs(vf::Ctx& c) {
 }
 
 // ---------------------------------------------------------------- enumerated tables (independent of the seed)
-static std::vector<Scenario> T_FORWARD, T_DATA, T_IGNORED, T_ADAPT;
+static std::vector<Scenario> T_FORWARD, T_DATA, T_IGNORED, T_ADAPT, T_KEPT;
 
 static Val mkint(int t, uint64_t u) { Val v; v.t = t; v.u = u; return v; }
 static Param in_param(const char* name, const Val& v) { Param p; p.kind = P_IN; p.name = name; p.v = v; return p; }
@@ -1432,6 +1507,41 @@ static void build_adaptor_table() {
     }
 }
 
+// Kept handles: call scope x scope of the interlude (every other scope; the call's own scope as the control) x interlude kind (getData,
+// set*Data, expectedCallsLeft) x position (before a parameter / before the getter) x return value (none, every return type) x what is read
+// through the handle (returnValue, the typed getter of the return type, hasReturnValue - unjudged when another scope is selected -, the
+// support-level returnValue of the call's scope), always followed by one more returnValue() through the handle. Own key family kept-handle:*.
+static void build_kept_table() {
+    for (int cs = 0; cs < 3; cs++) for (int is = 0; is < 3; is++) for (int ik = 0; ik < 3; ik++) for (int pos = 0; pos < 2; pos++) {
+        if (is == cs && ik != 0) continue;                                   // control: one interlude kind on the call's own scope
+        int centry = cs == 0 ? (is + ik) & 1 : 0, ientry = is == 0 ? (cs + pos) & 1 : 0;
+        for (int t = -1; t < N_GETTER_TYPES; t++) {
+            Scenario proto; std::vector<Val> vals;
+            if (t < 0) vals.push_back(Val());
+            else { std::vector<Val> all = table_values(proto, t); if (is_intlike(t)) vals.push_back(all.front()); vals.push_back(t == V_DOUBLE ? all[8] : all.back()); }
+            for (const Val& v : vals) for (int gv = 0; gv < 4; gv++) {
+                Scenario sc = proto; sc.key_override = "kept-handle:";
+                Stmt d = mk(S_SETDATA, is); d.entry = ientry; d.fn = "d0"; d.dval = mkint(V_UINT, 4000000000u); sc.stmts.push_back(d);
+                Stmt e = t_expect(cs, "f"); e.entry = centry; e.ps.push_back(in_param("a", mkint(V_LONG, (uint64_t) 1 << 33))); e.hasRet = t >= 0; if (t >= 0) e.ret = v; sc.stmts.push_back(e);
+                Stmt il = mk(ik == 0 ? S_GETDATA : ik == 1 ? S_SETDATA : S_LEFT, is); il.entry = ientry;
+                if (ik < 2) il.fn = "d0";
+                if (ik == 1) il.dval = mkint(V_INT, (uint64_t) -7);
+                Stmt a = t_actual(cs, "f"); a.entry = centry; a.ps.push_back(in_param("a", mkint(V_LL, (uint64_t) 1 << 33)));
+                int gt = t < 0 ? V_INT : t;
+                Getter g = gv == 0 ? t_getter(L_ACTUAL, G_RETVAL, V_INT) : gv == 1 ? t_getter(L_ACTUAL, G_TYPED, gt) : gv == 2 ? t_getter(L_ACTUAL, G_HAS, V_INT) : t_getter(L_SUPPORT, G_RETVAL, V_INT);
+                if (pos == 0) a.ps[0].il = add_interlude(sc, il); else g.il = add_interlude(sc, il);
+                a.getters.push_back(g);
+                a.getters.push_back(t_getter(L_ACTUAL, G_RETVAL, V_INT));
+                finish_chain(a, sc, true);
+                sc.stmts.push_back(a);
+                Stmt rd = mk(S_GETDATA, is); rd.entry = ientry; rd.fn = "d0"; sc.stmts.push_back(rd);
+                T_KEPT.push_back(sc);
+            }
+        }
+    }
+}
+
+static void sec_kept(vf::Ctx& c) { run_scenario(c, T_KEPT[c.idx]); }
 static void sec_adapt(vf::Ctx& c) { run_scenario(c, T_ADAPT[c.idx]); }
 static void sec_forward(vf::Ctx& c) { run_scenario(c, T_FORWARD[c.idx]); }
 static void sec_data(vf::Ctx& c) { run_scenario(c, T_DATA[c.idx]); }
@@ -1442,12 +1552,13 @@ int main(int argc, char** argv) {
     for (int i = 0; i < 2; i++) for (int m = 0; m < CM_N; m++) { g_cmp[i][m].eq = EQ[i][m]; g_cmp[i][m].str = STR[i]; }
     for (int m = 0; m < CP_N; m++) g_cpy[m].cp = CPY[m];
     for (int i = 0; i < 4; i++) g_ptrpool[i] = i;
-    build_forward_table(); build_data_table(); build_ignored_table(); build_adaptor_table();
+    build_forward_table(); build_data_table(); build_ignored_table(); build_adaptor_table(); build_kept_table();
     std::vector<vf::Section> S = {
         { "forwarder_table", T_FORWARD.size(), T_FORWARD.size(), sec_forward, true },
         { "data_store_table", T_DATA.size(), T_DATA.size(), sec_data, true },
         { "support_getters_after_ignored_call", T_IGNORED.size(), T_IGNORED.size(), sec_ignored, true },
         { "custom_type_adaptor_table", T_ADAPT.size(), T_ADAPT.size(), sec_adapt, true },
+        { "kept_handle_table", T_KEPT.size(), T_KEPT.size(), sec_kept, true },
         { "random_scenarios", 30000, 600000, sec_random, false },
         { "random_custom_type_scenarios", 6000, 100000, sec_random_objs, false },
     };
